@@ -125,6 +125,10 @@ func lzhuf.(*lzhuf).update(z, c) ()
   props C08 C06 C03
   requires inv: HuffInv(z)
   requires sym: 0 <= c && c < _NumChar
+  # (the invariant is proved part by part: smaller queries, each far below the solver timeout)
+  ensures shape: TreeShape(z)
+  ensures sums: forall i :: 0 <= i && i < _T && Internal(z, i) ==> SumAt(z, i)
+  ensures cap: z.freq[_R] <= 32768
   ensures inv: HuffInv(z)
   loop 0 invariant cur: 0 <= c && c <= _R
   loop 0 invariant shape: TreeShape(z)
